@@ -1799,6 +1799,9 @@ func buildCache(typ reflect.Type, cache map[string][]int, parent []int) {
 				buildCache(typ, cache, index)
 			}
 		}
+		if shallower, ok := cache[field.Name]; ok && len(shallower) <= len(index) {
+			continue // Go's promotion rule: the field at the shallowest depth wins, whatever the declaration order
+		}
 		cache[field.Name] = index
 	}
 }
